@@ -82,7 +82,7 @@ def normalise_script(scn: Dict[str, Any]) -> None:
                 step['outcome'] = 'err_listed'
 
 
-def judge(w: World, scn: Dict[str, Any], obs: CS.Obs, client_async: bool) -> Dict[str, Any]:
+def judge(w: World, scn: Dict[str, Any], obs: CS.Obs, client_async: bool, timing: bool = True) -> Dict[str, Any]:
     """Evaluate the C09 oracle on one execution; returns the schedule-invariant summary."""
     ctx = {'kind': scn['kind'], 'via': scn['via'], 'placement': scn['placement'], 'client_async': client_async}
     strategy = CS.effective_strategy(scn)
@@ -131,7 +131,7 @@ def judge(w: World, scn: Dict[str, Any], obs: CS.Obs, client_async: bool) -> Dic
         exp_pauses = list(got_sleeps)
     if got_sleeps != exp_pauses:
         w.violate('C09.pause', f'sleep arguments {got_sleeps}, expected backoff delays {exp_pauses}', **ctx)
-    else:
+    elif timing:
         for k in range(len(sends) - 1):
             end = ends.get(k)
             if end is None:
@@ -143,10 +143,10 @@ def judge(w: World, scn: Dict[str, Any], obs: CS.Obs, client_async: bool) -> Dic
                           f'{exp_pauses[k]}', **ctx)
     inv = next(r for r in recs if r['kind'] == 'caller.invoke')
     ret = next(r for r in recs if r['kind'] == 'caller.return')
-    if sends and sends[0]['vt'] != inv['vt']:
+    if timing and sends and sends[0]['vt'] != inv['vt']:
         w.violate('C09.pause', f'{sends[0]["vt"] - inv["vt"]} s passed before the first send', **ctx)
     last = ends.get(len(sends) - 1)
-    if last is not None and ret['vt'] != last['vt']:
+    if timing and last is not None and ret['vt'] != last['vt']:
         w.violate('C09.pause', f'{ret["vt"] - last["vt"]} s passed after the last attempt completed', **ctx)
     blocking = [r for r in sleeps if r.get('mode') == 'blocking']
     if client_async and blocking:
@@ -465,6 +465,100 @@ def fam_concurrent_async(w: World) -> None:
     w.sig_parts = summary
 
 
+def fam_concurrent_threads(w: World) -> None:
+    """Two or three caller threads share ONE synchronous client (one client-wide strategy, optional per-request
+    strategies); the baton scheduler interleaves them at line granularity inside pjrpc.  The threads share the virtual
+    clock (a blocking sleep of one thread moves it for all), so gaps are not judged here: per caller the number of
+    sends, the sleep arguments and the outcome are."""
+    import os
+    import threading
+    from types import SimpleNamespace
+    from ..stack import Stack
+    from ..threads import BatonScheduler
+    ch = w.ch
+    n_callers = 2 + ch.draw(2, 'concurrent.n')
+    strategy = CS.draw_strategy(ch)
+    strategy['backoff']['jitter_seq'] = False
+    if strategy['backoff']['attempts'] == 0:
+        strategy['backoff']['attempts'] = 2
+    strict = not ch.flag(1, 5, 'client.nonstrict')
+    scns = []
+    for k in range(n_callers):
+        scn = CS.draw_scenario(ch, cancel=False, max_tracers=0)
+        if scn['placement'] in ('none', 'client'):
+            scn['placement'], scn['request_strategy'] = 'client', 'unset'
+        elif scn['placement'] == 'request':
+            scn['placement'] = 'replaced'
+        if isinstance(scn['request_strategy'], dict):
+            scn['request_strategy']['backoff']['jitter_seq'] = False
+        scn.update(client_strategy=strategy, strict=strict, server_async=False, tracers=0, in_except=False)
+        eff = CS.effective_strategy(scn)
+        scn['script'] = (scn['script'] * 4)[:(eff['backoff']['attempts'] if eff else 0) + 2]
+        for step in scn['script']:
+            if step['outcome'] in ('abort', 'exc_cancelled'):
+                step['outcome'] = 'exc_other'      # a BaseException would end the worker thread, not the call
+        normalise_script(scn)
+        scns.append(scn)
+    w.scenario = {'client_async': False, 'concurrent': 'threads', 'callers': scns}
+    w.nontrivial = True
+    st = Stack(w, False, False, None,
+               client_kwargs={'strict': strict, 'tracers': [], 'retry_strategy': CS.build_strategy(strategy)})
+    st.service.add_flaky(st.net.name)
+    st.dispatcher.add_methods(st.service.registry(['flaky']))
+    obss: List[CS.Obs] = []
+    ops = []
+    for k, scn in enumerate(scns):
+        toks = [f'q{k}e{j}' for j in range(scn['n_elems'])]
+        st.net.keyed_scripts[toks[0]] = CS._net_script(scn)
+        w.plan[('flaky', toks[0])] = CS._flaky_plan(scn)
+        for t in toks[1:]:
+            w.plan[('flaky', t)] = ['ok'] * len(scn['script'])
+        obs = CS.Obs()
+        obs.stack, obs.tok = st, toks[0]
+        obss.append(obs)
+        ops.append(CS.make_op(st, scn, toks, obs))
+    for reset in CS._JITTER_RESETS:
+        reset()
+
+    def worker(k: int):
+        def run() -> None:
+            threading.current_thread().pjsim_caller = k     # type: ignore[attr-defined]
+            scn, obs = scns[k], obss[k]
+            w.rec('client', 'caller.invoke', req_kind=scn['kind'], via=scn['via'], caller=k)
+            try:
+                obs.outcome = ('value', ops[k]())
+                w.rec('client', 'caller.return', outcome='value', caller=k)
+            except Exception as e:  # noqa: BLE001
+                obs.outcome = ('raise', e)
+                w.rec('client', 'caller.return', outcome='raise', exc=type(e).__name__, oid=w.ordinal(e), caller=k)
+        return run
+
+    sched = BatonScheduler(w, switch_den=ch.choice([3, 6, 12], 'threads.den'),
+                           extra_files=[os.path.abspath(CS.__file__)])
+    sched.run([worker(k) for k in range(n_callers)])
+    if any(not o.outcome for o in obss):
+        from ..world import HarnessError
+        raise HarnessError('a caller thread did not finish')
+    if sched.switches:
+        w.probe('threads_switched')
+    summary = []
+    for k, (scn, obs) in enumerate(zip(scns, obss)):
+        tok = obs.tok
+        obs.records = [r for r in w.history
+                       if (r['kind'].startswith('wire.') and r.get('key') == tok)
+                       or (r['kind'] == 'sleep' and r.get('task') == k)
+                       or (r['kind'].startswith('caller.') and r.get('caller') == k)]
+        obs.net = SimpleNamespace(raised=st.net.raised_keyed.get(tok, []))
+        before = len(w.violations)
+        summary.append(judge(w, scn, obs, False, timing=False))
+        if len(w.violations) > before:
+            for v in w.violations[before:]:
+                v.ctx['caller'] = k
+                v.ctx['concurrent'] = 'threads'
+            return
+    w.sig_parts = summary
+
+
 SWEEP_SINGLE = ['ok', 'err_listed', 'err_unlisted', 'exc_conn', 'exc_reset', 'exc_other', 'lost_conn']
 SWEEP_BATCH = ['ok', 'batch_err_listed', 'batch_err_unlisted', 'exc_conn', 'exc_reset', 'exc_other', 'err_listed']
 SWEEP_NOTIFY = ['ok', 'exc_conn', 'exc_reset', 'exc_other']
@@ -483,7 +577,7 @@ def systematic(tier: str):
 
 FAMILIES = {'retry.sync': _family(False), 'retry.async': _family(True),
             'retry.history.sync': _history_family(False), 'retry.history.async': _history_family(True),
-            'retry.concurrent.async': fam_concurrent_async}
+            'retry.concurrent.async': fam_concurrent_async, 'retry.concurrent.threads': fam_concurrent_threads}
 SYSTEMATIC = {'retry.sync': systematic, 'retry.async': systematic}
 RULE = ('systematic part: every per-attempt outcome sequence of length n+2 over {success, listed code, unlisted code, '
         'batch-level listed / unlisted error, listed exception, subclass of a listed exception, unlisted exception, lost '
@@ -493,8 +587,8 @@ RULE = ('systematic part: every per-attempt outcome sequence of length n+2 over 
         'non-trivial = at least one fault fired')
 PLAN = {
     'quick': {'retry.sync': 60000, 'retry.async': 60000, 'retry.history.sync': 15000, 'retry.history.async': 15000,
-              'retry.concurrent.async': 20000},
+              'retry.concurrent.async': 20000, 'retry.concurrent.threads': 6000},
     'thorough': {'retry.sync': 40000, 'retry.async': 40000, 'retry.history.sync': 40000, 'retry.history.async': 40000,
-                 'retry.concurrent.async': 40000},
+                 'retry.concurrent.async': 40000, 'retry.concurrent.threads': 12000},
 }
 THOROUGH_BUDGET_S = 600
